@@ -1,5 +1,5 @@
 """Independent (expat based) reading of svgdx output."""
-import xml.parsers.expat
+import xml.parsers.expat as _expat
 
 
 class Node:
@@ -58,18 +58,21 @@ def parse(xml, keep_order=True):
 
     def ecd():
         in_cdata[0] = False
+    def doctype(name, sysid, pubid, has_internal):
+        events.append(('doctype', name, sysid, pubid))
+    p.StartDoctypeDeclHandler = doctype
     p.StartElementHandler = start; p.EndElementHandler = end; p.CharacterDataHandler = chars
     p.CommentHandler = comment; p.ProcessingInstructionHandler = pi
     p.StartCdataSectionHandler = scd; p.EndCdataSectionHandler = ecd
     try:
         p.Parse(xml, True)
-    except xml.parsers.expat.ExpatError as e:
+    except _expat.ExpatError as e:
         return None, events, str(e)
     return root, events, None
 
 
 def xml_parser():
-    p = xml.parsers.expat.ParserCreate(encoding='utf-8')
+    p = _expat.ParserCreate(encoding='utf-8')
     p.ordered_attributes = True
     p.buffer_text = True
     return p
